@@ -19,14 +19,14 @@ def F(n, d=1):
 
 
 # ------------------------------------------------------------------------------------------------ structures
-def struct(id, comps, pars, links, dt, stock, pops=("p0",), transfers=(), popvals=None, durs=None, jinit=None, glob=True, characs=(), interactions=None, programs=None, effects=None, gate=(0, 1)):
+def struct(id, comps, pars, links, dt, stock, pops=("p0",), transfers=(), popvals=None, durs=None, jinit=None, glob=True, characs=(), interactions=None, programs=None, effects=None, gate=(0, 1), maxK=6):
     """comps: [(name, kind[, group])]; pars: [(name, units, T, dom[, timed])]; links: [(src, dst, par|'>')]
     stock: {comp: [values] or [[rows]...] (timed; rows must match)}; transfers: [(name, src_pop, dst_pop, units, dom)]
     popvals: {pop: {par: dom}} overrides; durs: {pop: {group: Fraction}} durations (timed parameter value, constant)
     """
     return dict(id=id, comps=comps, pars=pars, links=links, dt=Fr(dt), stock=stock, pops=list(pops), transfers=list(transfers),
                 popvals=popvals or {}, durs=durs or {}, jinit=jinit or {}, glob=glob, characs=list(characs), interactions=interactions or {},
-                programs=programs or {}, effects=effects or {}, gate=list(gate))
+                programs=programs or {}, effects=effects or {}, gate=list(gate), maxK=maxK)
 
 
 def nrows(D, dt):
@@ -47,8 +47,9 @@ def expand(s, mode="r1"):
             D = s["durs"].get(pop, {}).get(g) if g else None
             if g and D is None:
                 D = [p for p in s["pars"] if p[0] == g][0][3][0]
-            if g:  # the duration in force is value x timescale (years)
-                D = Fr(D) * Fr([p for p in s["pars"] if p[0] == g][0][2])
+            if g:  # the duration in force is value x calibration factor x timescale (years)
+                gp = [p for p in s["pars"] if p[0] == g][0]
+                D = Fr(D) * Fr(gp[2]) * Fr((gp[5] if len(gp) > 5 else {}).get("y", 1))
             rows = nrows(D, s["dt"]) if g else 1
             comps.append(dict(name="%s/%s" % (pop, name), pop=pop, base=name, kind=kind, group=g, D=D, rows=rows, grp=0))
         for p in s["pars"]:
@@ -58,7 +59,7 @@ def expand(s, mode="r1"):
                 dom = [s["durs"][pop][name]]
             extra = p[5] if len(p) > 5 else {}
             pars.append(dict(name="%s/%s" % (pop, name), pop=pop, base=name, units=units, T=None if T is None else Fr(T), dom=[Fr(x) for x in dom], timed=name in timedpars,
-                             fn=extra.get("fn"), lim=extra.get("lim", (None, None))))
+                             fn=extra.get("fn"), lim=extra.get("lim", (None, None)), y=Fr(extra.get("y", 1))))
         for (a, b, par) in s["links"]:
             flush = par in timedpars
             timed = (not flush) and groups[a] is not None and groups[a] == groups[b]
@@ -287,10 +288,11 @@ def catalogue(tier="quick", mode="r1"):
                     F(1, 4), {"a": [0, 100], "v": [[0], [7]], "d": [0]}))
     # 9 duration group through a junction (junction is a member of the group)
     S.append(struct("tjunc", [("a", "normal"), ("v", "timed", "dur"), ("j", "junction", "dur"), ("w", "timed", "dur"), ("x", "timed", "dur"), ("d", "sink")],
-                    [("vac", "probability", 1, [0, 2]), ("dur", "duration", 1, [F(1, 2)], True), ("go", "probability", 1, [0, 1, 8]),
+                    [("vac", "probability", 1, [0, 2]), ("dur", "duration", 1, [F(1, 2)], True), ("go", "probability", 1, [0, 1, 8]), ("go2", "probability", 1, [0, 2]),
                      ("p1", "proportion", None, [1, F(1, 2)]), ("p2", "proportion", None, [0, 1]), ("mort", "rate", 1, [0, 2])],
-                    [("a", "v", "vac"), ("v", "a", "dur"), ("w", "a", "dur"), ("x", "d", "dur"), ("v", "j", "go"), ("j", "w", "p1"), ("j", "x", "p2"), ("w", "d", "mort")],
-                    F(1, 4), {"a": [0, 64], "v": [[1, 2], [0, 16]], "w": [[0, 0], [4, 5]], "x": [[0, 0], [2, 0]], "d": [0]}))
+                    # (two timed feeders v, x of the group junction j: each feeder's recorded flow is its own)
+                    [("a", "v", "vac"), ("v", "a", "dur"), ("w", "a", "dur"), ("x", "d", "dur"), ("v", "j", "go"), ("x", "j", "go2"), ("j", "w", "p1"), ("j", "x", "p2"), ("w", "d", "mort")],
+                    F(1, 4), {"a": [0, 64], "v": [[1, 2], [0, 16]], "w": [[0, 0], [4, 5]], "x": [[0, 0], [2, 3]], "d": [0]}))
     # 10 two populations with transfers both ways, timed compartments of different duration (3 and 2 rows)
     S.append(struct("xfer", [("a", "normal"), ("v", "timed", "dur"), ("d", "sink")],
                     [("vac", "probability", 1, [2]), ("dur", "duration", 1, [F(3, 4)], True), ("mort", "rate", 1, [F(1, 2), 6])],
@@ -373,6 +375,17 @@ def catalogue(tier="quick", mode="r1"):
                     effects={("treat", "p0"): dict(base=0, progs={"P1": F(1, 2)}),
                              ("rec", "p0"): dict(base=F(1, 8), progs={"P1": F(1, 2), "P2": F(1, 4)}),
                              ("beta", "p0"): dict(base=F(1, 2), progs={"P2": F(1, 8)})}))
+    # 12c-3 a program-driven junction proportion (not divided by dt), residual junction
+    S.append(struct("progjunc", [("a", "normal"), ("k", "resjunction"), ("b", "normal"), ("c", "normal")],
+                    [("r", "rate", 1, [F(1, 2), 2]), ("q1", "proportion", None, [F(1, 4)]), ("back", "probability", 1, [0, 1])],
+                    [("a", "k", "r"), ("k", "b", "q1"), ("k", "c", ">"), ("b", "a", "back")],
+                    F(1, 4), {"a": [0, 64], "b": [0, 16], "c": [0]}, glob=False,
+                    programs={"P1": dict(pops=["p0"], comps=["a"], caps=[0, 16, 64])}, effects={("q1", "p0"): dict(base=F(1, 8), progs={"P1": F(3, 4)})}))
+    # 12c-4 a calibration factor on the duration of a timed compartment: the duration in force is value x factor (D = 1/4 x 2 = 2 steps)
+    S.append(struct("tyfac", [("a", "normal"), ("v", "timed", "dur"), ("d", "sink")],
+                    [("vac", "probability", 1, [0, 3]), ("dur", "duration", 1, [F(1, 4)], True, {"y": 2}), ("mort", "rate", 1, [0, 2])],
+                    [("a", "v", "vac"), ("v", "a", "dur"), ("v", "d", "mort")],
+                    F(1, 4), {"a": [0, 100], "v": [[0, 0], [3, 5]], "d": [0]}))
     # 12d two duration groups in one population with an ordinary link between them: the move restarts the clock (it is not a
     #     time-preserving move), the remaining time in the old group is not carried over
     S.append(struct("tcross", [("a", "normal"), ("v", "timed", "d1"), ("w", "timed", "d2"), ("d", "sink")],
@@ -460,6 +473,25 @@ def catalogue_r2(tier="quick"):
                     [("a", "b", "r"), ("b", "a", "back")],
                     F(1, 4), {"a": [64], "b": [0, 64]}, glob=False,
                     programs={"P1": dict(pops=["p0"], comps=["a"], caps=[0, 16, 128])}, effects={("r", "p0"): dict(base=F(1, 16), progs={"P1": F(1, 4)})}, gate=(1,)))
+    # a program-driven number transition out of a compartment that the initial junction flush fills: the source population at the first
+    # time point is the one after the flush
+    S.append(struct("r2_progflush", [("a", "normal"), ("j", "junction"), ("x", "normal"), ("y", "normal")],
+                    [("r", "rate", 1, [0, 2]), ("p1", "proportion", None, [1]), ("p2", "proportion", None, [0, 1]), ("nn", "number", 1, [0])],
+                    [("a", "j", "r"), ("j", "x", "p1"), ("j", "y", "p2"), ("x", "y", "nn")],
+                    F(1, 4), {"a": [64], "x": [0, 64], "y": [0]}, jinit={"j": [0, 64]}, glob=False,
+                    programs={"P1": dict(pops=["p0"], comps=["x"], caps=[0, 64, 512])}, effects={("nn", "p0"): dict(base=0, progs={"P1": F(1, 16)})}, gate=(1,)))
+    # an aggregation whose weighting variable is a function parameter several dependency levels deep: it is evaluated after its weight
+    S.append(struct("r2_aggdeep", [("s", "normal"), ("i", "normal")],
+                    [("rec", "rate", 1, [F(1, 2)]),
+                     ("prev", None, None, [0], False, {"fn": ("div", ("comp", "i"), ("max", ("char", "alive"), ("num", 1)))}),
+                     ("u0", None, None, [0], False, {"fn": ("div", ("comp", "i"), ("num", 32))}),
+                     ("u1", None, None, [0], False, {"fn": ("mul", ("par", "u0"), ("num", 1))}),
+                     ("wt", None, None, [0], False, {"fn": ("mul", ("par", "u1"), ("num", 1))}),
+                     ("mix", None, None, [0], False, {"fn": ("agg", "SRC_AVG", "prev", "w", "wt")}),
+                     ("foi", "rate", 1, [0], False, {"fn": ("mul", ("num", F(1, 2)), ("par", "mix"))})],
+                    [("i", "s", "rec"), ("s", "i", "foi")],
+                    F(1, 2), {"p0/s": [96], "p0/i": [32], "p1/s": [0, 32], "p1/i": [32]}, pops=("p0", "p1"),
+                    characs=[("alive", ["s", "i"], None)], interactions={"w": {("p0", "p0"): 1, ("p0", "p1"): 1, ("p1", "p0"): 1, ("p1", "p1"): 1}}, glob=False, maxK=2))
     S.append(struct("r2_tcross", [("a", "normal"), ("v", "timed", "d1"), ("w", "timed", "d2"), ("d", "sink")],
                     [("vac", "probability", 1, [0, 2]), ("d1", "duration", 1, [F(1, 2)], True), ("d2", "duration", 1, [1], True), ("sw", "probability", 1, [0, 2]), ("mort", "rate", 1, [0])],
                     [("a", "v", "vac"), ("v", "a", "d1"), ("w", "a", "d2"), ("v", "w", "sw"), ("w", "d", "mort")],
@@ -603,6 +635,8 @@ def build_parset(w, pv_by_step, tvec):
     ps = at.ParameterSet(Fw, D)
     for i, p in enumerate(w["pars"]):
         if not p.get("transfer") and not p.get("fn") and not p.get("pseudo"):
+            if p.get("y", 1) != 1:
+                ps.pars[p["base"]].y_factor[p["pop"]] = float(p["y"])  # calibration factor (only used on duration parameters of timed compartments)
             ts = ps.pars[p["base"]].ts[p["pop"]]
             if K == 1 or p["timed"]:
                 ts.t = []
